@@ -197,7 +197,9 @@ func TestC15Rollover(t *testing.T) {
 				c.Fatalf("dir%d: priority numbering did not restart at 1 after the wrap (got %d)", di, seq)
 			}
 			d.lastSeq[cls] = seq
-			k := fmt.Sprintf("%d|%s|%d|%d", di, after, cls, seq)
+			// (the key alone identifies the direction: the two directions of a
+			// session never share a key, before or after a rollover)
+			k := fmt.Sprintf("%s|%d|%d", after, cls, seq)
 			if prev, dup := seen[k]; dup {
 				c.Fatalf("dir%d: sequence number %d (class %d) used twice under one key (first: %s)", di, seq, cls, prev)
 			}
